@@ -152,7 +152,9 @@ class Grid3Scales(Grid):
         wallCenter: float,
     ) -> None:
         assert wallThickness > 0, "Grid3Scales error: wallThickness must be positive."
-        assert smoothing > 0, "Grid3Scales error: smoothness must be positive."
+        assert (
+            0 < smoothing < 1
+        ), "Grid3Scales error: smoothing must be between 0 and 1."
         assert (
             tailLengthInside > wallThickness * (1 / 2 + smoothing) / ratioPointsWall
         ), """Grid3Scales error: tailLengthInside must be greater than
